@@ -243,3 +243,30 @@ pub broadcast group sem2 {
     axiom_eval_tupleaccess_res, axiom_eval_tupleaccess_st, axiom_eval_fieldaccess_res, axiom_eval_fieldaccess_st,
 }
 }
+// ----- `[value; len]`: semantic function of ArrayRepeat::exec (unit arrayrepeat.exec) and its dispatch axiom
+pub open spec fn arrayrepeat_res(a: ArrayRepeat, s: int) -> ExecResult {
+    let s1 = eval_st(a.value.instruction, s);
+    match eval_res(a.value.instruction, s) {
+        Err(e) => Err(e),
+        Ok(v) => match eval_res(a.len.instruction, s1) {
+            Err(e) => Err(e),
+            Ok(l) => if l->Int_0 < 0 { Err(ExecStop::Error(ExecError::NegativeLength)) }
+                     else { Ok(Variable::Array(Arr { elems: Ghost(Seq::new(l->Int_0 as nat, |i: int| v)) })) },
+        },
+    }
+}
+pub open spec fn arrayrepeat_st(a: ArrayRepeat, s: int) -> int {
+    let s1 = eval_st(a.value.instruction, s);
+    match eval_res(a.value.instruction, s) { Err(e) => s1, Ok(v) => eval_st(a.len.instruction, s1) }
+}
+pub mod sem_axioms4 { use super::*;
+#[verifier::external_body]
+pub broadcast proof fn axiom_eval_arrayrepeat_res(a: Arc<ArrayRepeat>, s: int)
+    ensures #[trigger] eval_res(Instruction::ArrayRepeat(a), s) == arrayrepeat_res(*a, s),
+{}
+#[verifier::external_body]
+pub broadcast proof fn axiom_eval_arrayrepeat_st(a: Arc<ArrayRepeat>, s: int)
+    ensures #[trigger] eval_st(Instruction::ArrayRepeat(a), s) == arrayrepeat_st(*a, s),
+{}
+pub broadcast group sem4 { axiom_eval_arrayrepeat_res, axiom_eval_arrayrepeat_st }
+}
